@@ -56,11 +56,13 @@ def rowOk (r : Row) : Bool :=
   !r.path.contains '\n' && !r.path.contains '\r' &&
   !r.pkgs.isEmpty && r.pkgs.all (fun p => tokenOk p.2 && p.1.length ≤ 2 && p.1.all tokenOk) &&
   !r.pad.isEmpty && r.pad.all (· == ' ') &&
-  !isHeaderText (renderRow r)
+  -- a row that spells the column header is not a row
+  !(r.path == "FILE".toList && join [','] (r.pkgs.map qualified) == "LOCATION".toList)
 
 def wf (i : Input) : Bool :=
   i.rows.all rowOk &&
-  i.narrative.all (fun l => !l.contains '\n' && !l.contains '\r' && !isHeaderText l) &&
+  -- free text: no line of it reads as the column header (`FILE`, white space ending in a space, `LOCATION`)
+  i.narrative.all (fun l => !l.contains '\n' && !l.contains '\r' && !isHeaderText l && !isHeaderRow (splitLine l)) &&
   (match i.headerRow with | some h => isHeaderText h && !h.contains '\n' && !h.contains '\r' | none => true) &&
   -- free text is only ignored when a header is declared
   (i.hasHeader || i.narrative.isEmpty) &&
